@@ -147,6 +147,7 @@ type dnode struct {
 	parked  chan string   // id the deleter wants to delete (sent when it parks)
 	release chan struct{} // closed/sent to let it proceed
 	waiting string        // id currently parked ("" = none)
+	workerG uint64        // goroutine of the delete worker (seen at its blocking point)
 	// oracle bookkeeping (survives restarts)
 	tomb      map[string]headstorage.DeletedStatus
 	leftDiff  map[string]bool
@@ -177,6 +178,7 @@ func (t *treeMgr) MarkTreeDeleted(ctx context.Context, spaceId, treeId string) e
 func (t *treeMgr) DeleteTree(ctx context.Context, spaceId, treeId string) error {
 	n := t.n
 	n.waiting = treeId
+	n.workerG = core.Goid()
 	select {
 	case <-n.release:
 	case <-ctx.Done():
@@ -986,6 +988,10 @@ func runC15(r *core.Run) {
 			armed := false
 			if nd.faulty && s.Flip("storage-fault-in-step", 0.5) {
 				nd.plan.Calls, nd.plan.FailAt, nd.plan.Armed = nil, 1+s.Choose("fail-at", 10), true
+				// the head updater of head sync writes the space hash on its own goroutine while the worker goes
+				// on: only the worker's calls are numbered, or the n-th call would differ between executions
+				wg := nd.workerG
+				nd.plan.Only = func() bool { return core.Goid() == wg }
 				armed = true
 			}
 			nd.release <- struct{}{}
@@ -993,6 +999,7 @@ func runC15(r *core.Run) {
 			failed := ""
 			if armed {
 				nd.plan.Armed = false
+				nd.plan.Only = nil
 				if nd.plan.Fired > 0 {
 					r.Fault("storage-error")
 					nd.hadFault = true
